@@ -3,33 +3,9 @@
 per-property texts below.  Run after adding a property check."""
 import json, os, sys
 sys.path.insert(0, os.path.dirname(os.path.abspath(__file__)))
-from props import PROPS
+from props import PROPS, TEXT
 
 ROOT = os.path.dirname(os.path.dirname(os.path.abspath(__file__)))
-
-TEXT = {
-    "C05": dict(
-        design="DESIGN.md 8 (C05), 3, 4.2",
-        text="Farm.tla transcribes the farm module action by action; TLC checks stake-sum, escrow, "
-             "unstake-never-fails/exact, frame and rejection clauses exhaustively on a bounded universe, "
-             "then generates behaviours that are executed on the real application (real ABCI path) "
-             "together with seeded random histories; every event of every real trace is validated by TLC "
-             "against the clauses (verdict) and against the specification's own step function (drift). "
-             "Bounded exhaustive at design level, sampled but clause-by-clause at code level.",
-        note="Trusted: TLC/SANY/CommunityModules Json, Go toolchain, cosmos-sdk bank, the harness projection; "
-             "LP amounts are multiples of 10^18/prec (exact unit scaling, DESIGN 4.2); known finding F2 masked "
-             "only for unstakes the specification attributes to a short reward collector."),
-    "C06": dict(
-        design="DESIGN.md 8 (C06), 3",
-        text="Same specification and traces as C05; clauses: budget = remaining + released + refunded per pool "
-             "and denom (ghosts computed from observed states), money flows to collector/creator match the "
-             "budget drops, release only at the per-block rate while someone is staked, refund exactly once, "
-             "and each farmer's paid+claimable within the stated rounding of the exact stake-weighted "
-             "entitlement (integer arithmetic scaled by 2520).",
-        note="As C05. The pro-rata clause is evaluated when pool totals divide 2520 (all totals <= 10); other "
-             "totals are counted as not exercised."),
-}
-
 
 def main():
     checks = []
